@@ -375,8 +375,8 @@ func (h *harness) compareOne(p sysProgram, in *sysInput, e encoding, base []stri
 	c.Violate(sig, fmt.Sprintf("`%s` over input %s: ZSON gives %s, %s gives %s", p.text, in.name, short(base), e, short(got)), w)
 }
 
-// Signatures of the defects found so far that are specific to the ZNG scanner (the first is still
-// open, the second was repaired in /repo by a51bcc8de and is listed as "fixed": it suppresses nothing):
+// Signatures of the two defects found so far that are specific to the ZNG scanner.  Both were repaired
+// in /repo (f4f1b882f, a51bcc8de) and are listed as "fixed": they suppress nothing, a recurrence is a VIOLATION.
 const (
 	knownHiddenSys = "encoding-differs:zng:search:record-below-container"
 	knownTypeCache = "zng-frame-alias:type-value-cache"
@@ -811,7 +811,7 @@ func run(c *core.Ctx) error {
 	if len(h.values) == 0 || len(h.rows) == 0 {
 		return fmt.Errorf("Pushdown.tla exported no table")
 	}
-	c.Logf("TLC: OverApprox holds outside the known defect; table of %d predicates x %d values (%.1fs)", len(h.rows), len(h.values), time.Since(t0).Seconds())
+	c.Logf("TLC: OverApprox holds; table of %d predicates x %d values (%.1fs)", len(h.rows), len(h.values), time.Since(t0).Seconds())
 	c.Set("predicates", len(h.rows))
 	c.Set("values", len(h.values))
 	c.Set("exhaustive", true)
@@ -822,8 +822,6 @@ func run(c *core.Ctx) error {
 	}
 	c.Set("function_level_cells", h.fnChecked)
 	c.Set("frames_rejected_by_real_buffer_filter", h.fnSkippedFrames)
-	c.Set("known_defect_cells_predicted", h.fnTaintPredicted)
-	c.Set("known_defect_cells_observed", h.fnTaintObserved)
 	c.Logf("function level: %d cells, the real buffer filter rejects %d frames, %d violations (%.1fs)", h.fnChecked, h.fnSkippedFrames, c.Violations(), time.Since(t0).Seconds())
 	t0 = time.Now()
 	foldLines, err := core.ReadNDJSON[foldLine](res, "fold.ndjson")
